@@ -655,8 +655,30 @@ def check_extent_loops(run, A, module_prefixes, rule='R-ITER'):
             if any(x.id == var for x in body_names) or not any(x.id == arr and isinstance(x.ctx, ast.Load) for x in body_names):
                 continue
             # anything assigned in the body and read in the body before / without that assignment is carried around the loop
+            def feeds(r, mu):
+                # is the carried value READ by the computation?  `results.append(v)` only collects: the receiver of a list-growing method is not a read
+                stack, seen_ = [r], set()
+                while stack:
+                    y = stack.pop()
+                    if not isinstance(y, T) or y.id in seen_:
+                        continue
+                    seen_.add(y.id)
+                    if y is mu:
+                        return True
+                    if y.op == 'mu':
+                        continue
+                    if y.op == 'call' and y.args[0].op == 'attr' and y.args[0].args[1] in ('append', 'extend', 'insert') and y.args[0].args[0] is mu:
+                        stack.extend(y.args[1])
+                        stack.extend(v_ for _, v_ in y.args[2])
+                        continue
+                    for a in y.args:
+                        for z in (a if isinstance(a, tuple) else (a,)):
+                            for w in (z if isinstance(z, tuple) else (z,)):
+                                if isinstance(w, T):
+                                    stack.append(w)
+                return False
             carried = {nm for nm in L.mus if nm != var and any(
-                t is L.mus[nm] for e in L.body_events for r in [e.term] + [c for c, _ in (e.guards or [])] if isinstance(r, T) for t in walk_terms(r, into_mu=False))}
+                feeds(r, L.mus[nm]) for e in L.body_events for r in [e.term] + [c for c, _ in (e.guards or [])] if isinstance(r, T))}
             if carried:
                 continue
             guards = next((e.guards for e in L.body_events), None)
